@@ -341,24 +341,28 @@ class StreamableHTTPTransport(Transport):
 
                     if not line:
                         # Empty line marks end of event
-                        if current_event and event_data:
+                        if event_data:
                             await self._process_sse_event(
-                                current_event, event_data, message_id
+                                current_event or "message", event_data, message_id
                             )
                         current_event = None
                         event_data = []
                         continue
 
-                    # Parse SSE format
-                    if line.startswith("event: "):
-                        current_event = line[7:].strip()
-                    elif line.startswith("data: "):
-                        data = line[6:]  # Keep formatting
+                    # Parse SSE format (the space after the colon is optional)
+                    if line.startswith("event:"):
+                        current_event = line[6:].strip()
+                    elif line.startswith("data:"):
+                        data = line[5:]  # Keep formatting
+                        if data.startswith(" "):
+                            data = data[1:]
                         event_data.append(data)
 
             # Process any remaining event
-            if current_event and event_data:
-                await self._process_sse_event(current_event, event_data, message_id)
+            if event_data:
+                await self._process_sse_event(
+                    current_event or "message", event_data, message_id
+                )
 
         except Exception as e:
             logger.error(f"Error processing SSE response: {e}")
@@ -381,24 +385,28 @@ class StreamableHTTPTransport(Transport):
 
                 if not line:
                     # Empty line marks end of event
-                    if current_event and event_data:
+                    if event_data:
                         await self._process_sse_event(
-                            current_event, event_data, message_id
+                            current_event or "message", event_data, message_id
                         )
                     current_event = None
                     event_data = []
                     continue
 
-                # Parse SSE format
-                if line.startswith("event: "):
-                    current_event = line[7:].strip()
-                elif line.startswith("data: "):
-                    data = line[6:]  # Keep formatting
+                # Parse SSE format (the space after the colon is optional)
+                if line.startswith("event:"):
+                    current_event = line[6:].strip()
+                elif line.startswith("data:"):
+                    data = line[5:]  # Keep formatting
+                    if data.startswith(" "):
+                        data = data[1:]
                     event_data.append(data)
 
             # Process any remaining event
-            if current_event and event_data:
-                await self._process_sse_event(current_event, event_data, message_id)
+            if event_data:
+                await self._process_sse_event(
+                    current_event or "message", event_data, message_id
+                )
 
         except Exception as e:
             logger.error(f"Error processing SSE text: {e}")
